@@ -248,6 +248,12 @@ impl Property for C08 {
                 st.label("joined: trivial");
             }
         }
+        st.eval(1);
+        match oversize_probe(sh.as_ref(), &msgs, true) {
+            Ok(true) => st.label("oversize message refused by the send guard"),
+            Ok(false) => {}
+            Err((k, m)) => crate::vfail!(k, "{}", m),
+        }
         if msgs.raw.iter().any(|r| r.is_some()) {
             st.label("message written as raw bytes (as_mut_bytes + assume_init)");
         }
